@@ -110,6 +110,8 @@ def run(ctx):
                 if name == "validate_positive_float" and o[0] == "ok" and o[1] is not None and not is_nan(o[1]) and not float(np.asarray(o[1], dtype=float)) > 0:
                     ctx.violation("C20|%s|non-positive-accepted" % name, "a non-positive value is accepted by the positive-float validator",
                                   {"validator": name, "value": repr(v), "optional": opt, "returned": repr(o[1])})
+        if isinstance(v, np.float32):
+            continue            # the value universe of the model has no float32 (not a Python float): property-text oracle only
         try:
             mv = encval(v)
         except TypeError:
